@@ -8,6 +8,8 @@ CONSTANTS
   Factors <- MC_FactorsQuick
   DataLo = 0
   DataHi = 96
+  DataStep = 24
+  GuardParams = 3
   PkParams <- MC_PkParams
   BkParams <- MC_BkParams
   NptsVals = {0, 1, 3, 4, 5, 6, 7, 9}
@@ -24,6 +26,8 @@ INVARIANT WindowContainsEstimate
 INVARIANT NeighbourDistance
 INVARIANT WindowsAreDeclarative
 INVARIANT UncutWindowHasWidth
+INVARIANT NarrowDecidedByPoints
+INVARIANT PointCountsConsistent
 INVARIANT OneResultPerPeak
 INVARIANT FirstSuccessWins
 INVARIANT NoFitWhenNarrow
